@@ -845,6 +845,9 @@ class Model:
                         der_sym = ca.MX.sym("der({})".format(expr.name()))
                         der_states[expr.name()] = Variable(der_sym, float)
                         return der_sym
+                    elif expr.name() == self.time.name():
+                        # der(time) = 1
+                        return 1.0
                     else:
                         return 0.0
                 else:
